@@ -315,13 +315,17 @@ CLAIMED["C11"] = dict(
           "consistent data every minimiser reproduces b_i/b_j between all linked samples; multiplying all intensities by a constant changes "
           "neither which pairs get a ratio nor any median ratio (scaling); rescaling keeps solution ratios, sums to the "
           "total, unlinked samples 0; and a REFUTATION: 'permutes with the samples' is false of the faithful model (arithmetic median "
-          "of an even number of ratios is not reciprocal) - known finding D13. Correspondence: the real _getLFQIntensities with its "
+          "of an even number of ratios is not reciprocal) - known finding D13; every exact stage is invariant under an order-preserving renaming "
+          "of the experiments; every exact stage is invariant under ANY permutation of the precursor list provided the sort key is a linear "
+          "order on the used precursors (it is when each carries a PEP and no two tie on the whole key) - and a second REFUTATION: without "
+          "that proviso precursor-order independence is false of the model and of the code (full-key ties with different SILAC channels) - "
+          "known finding D16, replayed on the real code in every run. Correspondence: the real _getLFQIntensities with its "
           "stages recorded (matrix and total exact, medians 1e-13, log ratios through a tabulated ln 1e-11, zero pattern, total 1e-9, "
           "normal equations 1e-3 on the implementation's own answer); append_columns: the graph handed down vs the Coq graph model, "
           "columns = per-group results; metamorphic runs (order-preserving renaming, precursor order, scaling, sample permutation)."),
     note=COMMON_NOTE + "PARTIAL: np.log/np.exp, float division, bottleneck.nanmedian and scipy's iterative lsqr are outside the model; the "
-         "final comparison is tolerance-based (supporting evidence, not exact correspondence). Precursor-order and renaming "
-         "invariance are metamorphic tests on the implementation, not theorems (scaling is both). Axioms (theorems over R only): "
+         "final comparison is tolerance-based (supporting evidence, not exact correspondence). Precursor-order, renaming and scaling "
+         "invariance are theorems about the exact layer AND metamorphic tests on the implementation's final floats. Axioms (theorems over R only): "
          "ClassicalDedekindReals.sig_forall_dec, ClassicalDedekindReals.sig_not_dec, FunctionalExtensionality.functional_extensionality_dep.",
     technique="Coq proofs (exact Q model + least-squares specification over Reals) + staged differential correspondence with tolerance + metamorphic runs",
     design="5/C11")
